@@ -131,7 +131,8 @@ func vh_C04_sign_twin(a []int) { vhC04(a, true) }
 
 func vhC04(a []int, twin bool) {
 	dsse, nsign, alter := a[0] == 1, a[1], a[2] >= 1
-	orig := Link{Type: "link", Name: "N0", Materials: map[string]HashObj{"m": {"sha256": "ab"}}, Command: []string{"make"}}
+	orig := Link{Type: "link", Name: "N0", Materials: map[string]HashObj{"m": {"sha256": "ab"}}, Command: []string{"make"},
+		ByProducts: map[string]interface{}{"stdout": vConcStr(vPick("stdout", "ok", "tab\tvt\x0besc\x1b[0m\n", "caf\u00e9 \u00c0"))}}
 	origCanon := vspecCanonLink(orig)
 	md := vhNewWrapper(dsse, orig)
 	signedBy := [3]bool{}
@@ -191,6 +192,19 @@ func vhC04(a []int, twin bool) {
 		err := md.VerifySignature(vhEdKey(j, false))
 		vObserve("verify", j, err == nil)
 		vAssert("C04.verifies-iff-signed-by-that-key-over-current-content", (err == nil) == (signedBy[j] && !alter))
+	}
+	// ... also after the metadata was written to disk and loaded back
+	if a[2] == 0 {
+		vhFiles = map[string][]byte{}
+		derr := md.Dump("signed.link")
+		back, lerr := LoadMetadata("signed.link")
+		vAssert("C04.dump-and-load-back-succeed", derr == nil && lerr == nil)
+		if derr == nil && lerr == nil {
+			for j := 0; j < 3; j++ {
+				err := back.VerifySignature(vhEdKey(j, false))
+				vAssert("C04.loaded-metadata-verifies-iff-signed-by-that-key", (err == nil) == signedBy[j])
+			}
+		}
 	}
 	// another key presented under the id of key 0 never verifies
 	imp := vhEdKey(1, false)
